@@ -41,7 +41,7 @@ Section Model.
   Record st := mkst { buf : list T; p : Z; k : nat }.
   Inductive outcome := Done (s : st) | Fuel (s : st).   (* Fuel: the repaired loop ran out of fuel *)
 
-  Definition init : st := mkst [] maxu O.                       (* NewCounter *)
+  Definition init : st := mkst [] (init_p maxu) O.              (* NewCounter: p: math.MaxUint64 *)
   Definition reset (s : st) : st := mkst [] (reset_p maxu) O.   (* Reset *)
   Definition len (s : st) : Z := Z.of_nat (length (buf s)).     (* Len *)
   Definition count (s : st) : Z :=                              (* Count *)
@@ -55,6 +55,13 @@ Section Model.
     Variable word : M Z.                     (* c.rng.Uint64() *)
     Variable order : list T -> M (list T).   (* the order in which range visits the map *)
     Arguments ret {A}. Arguments bind {A B}.
+
+    (* the coin of the code, word for word: "c.p < math.MaxUint64 && c.rng.Uint64() >= c.p".  Go's &&
+       draws the word only when the first conjunct holds (DistinctProofs.coin_fail_shape pins the
+       shape of the generated condition); true = the coin FAILED.  Both the bit-reader instance
+       (dcoin) and the real-coin expectation instance (Rcoin) are this definition. *)
+    Definition real_coin (p : Z) (k : nat) : M bool :=
+      if p <? maxu then bind word (fun w => ret (coin_fail p maxu w)) else ret false.
 
     (* for elt := range c.buf { if nb == 0 { rnd = Uint64(); nb = 64 }; if rnd&1 == 0 { Remove(elt) }; rnd >>= 1; nb-- } *)
     Fixpoint pass (elts : list T) (b : list T) (nb rnd : Z) : M (list T) :=
@@ -110,10 +117,7 @@ Section Model.
     | [] => DErr NoWords
     | w :: r => if (0 <=? w) && (w <? two64) then DOk w (mktape r (orc t)) else DErr BadWord
     end.
-  (* the word is drawn only when the first conjunct holds (DistinctProofs.coin_fail_shape pins the
-     shape of the generated condition) *)
-  Definition dcoin (p : Z) (k : nat) : D bool :=
-    if p <? maxu then dbind _ _ dword (fun w => dret _ (coin_fail p maxu w)) else dret _ false.
+  Definition dcoin : Z -> nat -> D bool := real_coin D dret dbind dword.
 
   (* which of the next n visits will drop their element, read off the upcoming words *)
   Fixpoint peek_drops (n : nat) (ws : list Z) (nb rnd : Z) : list bool :=
@@ -183,15 +187,16 @@ Section Model.
                 end
     end.
 
-  (* the same run, recording what the harness observes after every operation: Len, Count, p *)
+  (* the same run, recording what the harness observes after every operation: Len, Count, p and
+     the number of words the operation drew from the source *)
   Fixpoint run_obs (single : bool) (fuel : nat) (cap : Z) (s : st) (ws : list Z) (ops : list op)
-    : list (Z * Z * Z) * rres :=
+    : list (Z * Z * Z * Z) * rres :=
     match ops with
     | [] => ([], ROk s ws)
     | o :: r => match step single fuel cap s ws o with
                 | ROk s' ws' =>
                   let '(obs, fin) := run_obs single fuel cap s' ws' r in
-                  ((len s', count s', p s') :: obs, fin)
+                  ((len s', count s', p s', Z.of_nat (length ws - length ws')) :: obs, fin)
                 | RErr e => ([], RErr e)
                 end
     end.
@@ -225,6 +230,22 @@ Section Model.
         Ebind _ _ (Eadd single fuel cap s v)
               (fun o => match o with Done s' => Erun single fuel cap s' r | Fuel s' => Eret _ (Fuel s') end)
       end.
+
+    (* ---- the same program with the REAL coin: a uniform 64-bit word is drawn exactly when the
+       code draws one and compared with the threshold by the generated condition.  Nothing ideal is
+       left but the independence and uniformity of the 64 bits of every word drawn.  [Crun] is Erun
+       with the coin as a parameter (DistinctProofsReal.Erun_is_Crun). *)
+    Definition Rcoin : Z -> nat -> E bool := real_coin E Eret Ebind Eword.
+    Definition Cadd (coin : Z -> nat -> E bool) := add E Eret Ebind coin Eword Eorder.
+    Fixpoint Crun (coin : Z -> nat -> E bool) (single : bool) (fuel : nat) (cap : Z) (s : st) (ops : list op) : E outcome :=
+      match ops with
+      | [] => Eret _ (Done s)
+      | OReset :: r => Crun coin single fuel cap (reset s) r
+      | OAdd v _ :: r =>
+        Ebind _ _ (Cadd coin single fuel cap s v)
+              (fun o => match o with Done s' => Crun coin single fuel cap s' r | Fuel s' => Eret _ (Fuel s') end)
+      end.
+    Definition Rrun := Crun Rcoin.
   End Exp.
 End Model.
 
